@@ -230,8 +230,21 @@ def _expression_helper(fi):
 
 
 class _ExprInline(ast.NodeTransformer):
-    def __init__(self, mi, caller, cands, done):
+    def __init__(self, mi, caller, cands, done, props=None):
         self.mi, self.caller, self.cands, self.done = mi, caller, cands, done
+        self.props = props or {}  # (class name, attribute) -> expression over self, for unknown read-only properties
+
+    def visit_Attribute(self, n):
+        self.generic_visit(n)
+        if isinstance(n.ctx, ast.Load) and isinstance(n.value, ast.Name) and n.value.id == "self" and self.caller.cls is not None and (self.caller.cls.name, n.attr) in self.props and self.caller.name != n.attr:
+            new = ast.parse(ast.unparse(self.props[(self.caller.cls.name, n.attr)]), mode="eval").body
+            ast.copy_location(new, n)
+            for x in ast.walk(new):
+                if not hasattr(x, "lineno"):
+                    ast.copy_location(x, n)
+            self.done.append((self.caller.qname, f"{self.caller.cls.mod.name}.{self.caller.cls.name}.{n.attr}"))
+            return new
+        return n
 
     def visit_Call(self, n):
         self.generic_visit(n)
@@ -272,11 +285,20 @@ def inline_new_helpers(prog):
                     e = _expression_helper(fi)
                     if e is not None:
                         ecands[fi.qname] = e
-            if not ecands:
+            # unknown read-only properties whose body is `return <expr over self>`
+            props = {}
+            for fi in prog.funcs.values():
+                if fi.mod is mi and fi.cls is not None and fi.qname not in known and fi.decorators == ["property"] and len(fi.params) == 1:
+                    body = [s_ for s_ in fi.node.body if not (isinstance(s_, ast.Expr) and isinstance(s_.value, ast.Constant))]
+                    if len(body) == 1 and isinstance(body[0], ast.Return) and body[0].value is not None and not _has(body[0].value, (ast.Lambda, ast.NamedExpr, ast.Call)):
+                        setters = [m for m in fi.cls.methods if m == fi.name + ".setter"]
+                        if not setters:
+                            props[(fi.cls.name, fi.name)] = body[0].value
+            if not ecands and not props:
                 break
             before = len(done)
             for caller in [f for f in prog.funcs.values() if f.mod is mi]:
-                tr = _ExprInline(mi, caller, {q: e for q, e in ecands.items() if q != caller.qname}, done)
+                tr = _ExprInline(mi, caller, {q: e for q, e in ecands.items() if q != caller.qname}, done, props)
                 caller.node.body = [tr.visit(st) for st in caller.node.body]
                 ast.fix_missing_locations(caller.node)
             if len(done) == before:
@@ -472,6 +494,28 @@ def inline_new_helpers(prog):
                         caller.node.body = [st for st in caller.node.body if not (isinstance(st, (ast.FunctionDef, ast.AsyncFunctionDef)) and st.name == nm)]
             ast.fix_missing_locations(caller.node)
     if done:
+        # helpers that were expanded at every place they are mentioned are dropped: nothing reaches them any more
+        helpers = {h for _, h in done}
+        for mi in prog.modules.values():
+            names_left = {}
+            for n in ast.walk(mi.tree):
+                if isinstance(n, ast.Name):
+                    names_left[n.id] = names_left.get(n.id, 0) + 1
+                elif isinstance(n, ast.Attribute):
+                    names_left[n.attr] = names_left.get(n.attr, 0) + 1
+
+            def prune(body, prefix):
+                out = []
+                for st in body:
+                    if isinstance(st, (ast.FunctionDef, ast.AsyncFunctionDef)) and f"{prefix}.{st.name}" in helpers and names_left.get(st.name, 0) == 0 and st.name not in known_names:
+                        continue
+                    if isinstance(st, ast.ClassDef):
+                        st.body = prune(st.body, f"{prefix}.{st.name}") or [ast.Pass()]
+                    out.append(st)
+                return out
+
+            known_names = {q.rsplit(".", 1)[1] for q in known}
+            mi.tree.body = prune(mi.tree.body, mi.name)
         from .normalize import rows_comprehension_to_loop, split_tuple_assigns
 
         for f in prog.funcs.values():
